@@ -8,7 +8,9 @@
    Chain names are inputs: the driver passes the names the real code computes (PolicyChainName,
    PolicyGroup.ChainName, ProfileChainName, EndpointChainName), interned injectively to short strings.
 
-   Not modelled: QoS packet-rate / connection-limit rules (qosControls = nil). *)
+   QoS controls: the packet-rate and connection-limit rules are modelled with oracle matches (MOther): 0 = xt_limit
+   "within rate", 1 = nft "limit rate over", 2 = TCP SYN, 3 = connection count over the limit; the numbers of the
+   limits are not part of the abstract syntax. *)
 From Coq Require Import List NArith Bool Arith String.
 From Verif.Common Require Import Packet PolicyRef Ipt.
 From Verif.C08 Require Import Model.
@@ -42,6 +44,8 @@ Record ecfg := {
   ec_ct_invalid : bool;            (* !DisableConntrackInvalid *)
   ec_block_vxlan : option N;       (* Some VXLANPort when !allowVXLANEncap *)
   ec_block_ipip : bool;            (* !allowIPIPEncap *)
+  ec_qos_rate : bool;              (* qosControls gives a packet rate for this direction (normal chains only) *)
+  ec_qos_conn : bool;              (* qosControls gives a connection limit for this direction *)
   ec_profile_fix : bool            (* tree has fixes/C09-profile-pass-mark.patch: profile chains that contain a Pass
                                       rule start by clearing the pass mark (probed from the tree by the driver) *)
 }.
@@ -87,6 +91,21 @@ Definition stride_ret (k : nat) : bool := negb (k =? 0)%nat && (k mod return_str
 Definition stride_first (k : nat) : bool := (k mod return_stride =? 0)%nat.
 Definition group_body (c : cfg) (pols : list mpolicy) : list irule := group_rules_gen stride_ret stride_first c 0 pols.
 
+(* ------------------------------------------------------------------ how the endpoint manager forms the groups *)
+(* felix/dataplane/linux/endpoint_mgr.go groupPolicies: walk a tier's policies (one direction) in order; a new
+   group starts whenever the policy's selector differs from the selector of the group being filled.  The input
+   pairs each policy with (an interned id of) its selector; groups are maximal runs of equal selectors. *)
+Fixpoint group_runs {A : Type} (l : list (N * A)) : list (N * list A) :=
+  match l with
+  | [] => []
+  | (s, x) :: rest =>
+      match group_runs rest with
+      | (s', g) :: gs => if N.eqb s s' then (s, x :: g) :: gs else (s, [x]) :: (s', g) :: gs
+      | [] => [(s, [x])]
+      end
+  end.
+Definition group_policies {A : Type} (l : list (N * A)) : list (list A) := map snd (group_runs l).
+
 (* ------------------------------------------------------------------ the endpoint chain *)
 Definition deny (c : cfg) : target := deny_target c.                        (* IptablesFilterDenyAction *)
 Definition allow_target (ec : ecfg) : target := match ec_allow ec with AllowAccept => AAccept | AllowReturn => AReturn end.
@@ -101,6 +120,30 @@ Definition conntrack_rules (ec : ecfg) (c : cfg) : list irule :=
   (match ec_allow ec with AllowAccept => [] | AllowReturn => [mk [ct_rel_est] (ASetMark (c_accept c))] end)
   ++ [mk [ct_rel_est] (allow_target ec)]
   ++ (if ec_ct_invalid ec then [mk [MCtState false [CtInvalid]] (deny c)] else []).
+
+(* QoS controls (chainTypeNormal, qosControls != nil).  iptables: clear scratch0; mark packets within the rate;
+   DROP unmarked ones; clear scratch0.  nftables: one rule dropping packets over the rate.  Always DROP (r.Drop()),
+   never the configured deny action. *)
+Definition O_WITHIN_RATE : N := 0.   Definition O_OVER_RATE : N := 1.
+Definition O_TCP_SYN : N := 2.       Definition O_CONN_OVER : N := 3.
+Definition qos_rate_rules (ec : ecfg) (c : cfg) : list irule :=
+  if is_normal ec && ec_qos_rate ec then
+    match c_flavor c with
+    | Nft => [mk [MOther O_OVER_RATE] ADrop]
+    | Iptables => [mk [] (AClearMark (c_scratch0 c));
+                   mk [MOther O_WITHIN_RATE] (ASetMark (c_scratch0 c));
+                   mk [MMark true (c_scratch0 c) (c_scratch0 c)] ADrop;
+                   mk [] (AClearMark (c_scratch0 c))]
+    end
+  else [].
+(* connection limit: REJECT with tcp-reset; iptables restricts the rule to TCP SYN packets *)
+Definition qos_conn_rules (ec : ecfg) (c : cfg) : list irule :=
+  if is_normal ec && ec_qos_conn ec then
+    match c_flavor c with
+    | Nft => [mk [MOther O_CONN_OVER] AReject]
+    | Iptables => [mk [MProto false 6; MOther O_TCP_SYN; MOther O_CONN_OVER] AReject]
+    end
+  else [].
 
 Definition accept_set (c : cfg) : pmatch := MMark false (c_accept c) (c_accept c).   (* MarkSingleBitSet(MarkAccept) *)
 Definition pass_clear (c : cfg) : pmatch := MMark false 0 (c_pass c).                (* MarkClear(MarkPass) *)
@@ -140,9 +183,10 @@ Definition encap_rules (ec : ecfg) (c : cfg) : list irule :=
    | None => [] end)
   ++ (if ec_block_ipip ec then [mk [MProto false 4] (deny c)] else []).
 
-Definition endpoint_rules (ec : ecfg) (c : cfg) (tiers : list mtier) (profiles : list mprofile) : list irule :=
-  if negb (ec_admin_up ec) then [mk [] (deny c)] else
+(* everything behind the QoS packet-rate rules *)
+Definition endpoint_tail (ec : ecfg) (c : cfg) (tiers : list mtier) (profiles : list mprofile) : list irule :=
   conntrack_rules ec c
+  ++ qos_conn_rules ec c
   ++ (match ec_failsafe ec with Some f => [mk [] (AJump f)] | None => [] end)
   ++ [mk [] (AClearMark (N.lor (c_accept c) (c_pass c)))]
   ++ encap_rules ec c
@@ -151,6 +195,10 @@ Definition endpoint_rules (ec : ecfg) (c : cfg) (tiers : list mtier) (profiles :
   ++ (if is_normal ec
       then profile_jumps c profiles ++ (if c_flowlogs c then [mk [] ANflog] else []) ++ [mk [] (deny c)]
       else []).
+
+Definition endpoint_rules (ec : ecfg) (c : cfg) (tiers : list mtier) (profiles : list mprofile) : list irule :=
+  if negb (ec_admin_up ec) then [mk [] (deny c)] else
+  qos_rate_rules ec c ++ endpoint_tail ec c tiers profiles.
 
 (* ------------------------------------------------------------------ the chain map *)
 Definition all_policies (tiers : list mtier) : list mpolicy := flat_map (fun t => flat_map g_pols (mt_groups t)) tiers.
